@@ -1170,43 +1170,44 @@ conf.registerGlobalValue(conf.supybot.commands, 'disabled',
     to exist.""")))
 
 class DisabledCommands(object):
+    """The commands that are disabled, everywhere or in some plugins only.
+    Both kinds are recorded side by side, as supybot.commands.disabled does
+    with its 'command' and 'plugin.command' names: disabling or enabling a
+    command everywhere leaves what was said about single plugins alone."""
     def __init__(self):
+        # command -> [disabled everywhere?, plugins it is disabled in]
         self.d = CanonicalNameDict()
         for name in conf.supybot.commands.disabled():
             if '.' in name:
                 (plugin, command) = name.split('.', 1)
-                if command in self.d:
-                    if self.d[command] is not None:
-                        self.d[command].add(plugin)
-                else:
-                    self.d[command] = CanonicalNameSet([plugin])
+                self.add(command, plugin)
             else:
-                self.d[name] = None
+                self.add(name)
 
     def disabled(self, command, plugin=None):
         if command in self.d:
-            if self.d[command] is None:
-                return True
-            elif plugin in self.d[command]:
-                return True
+            (everywhere, plugins) = self.d[command]
+            return everywhere or plugin in plugins
         return False
 
     def add(self, command, plugin=None):
+        if command not in self.d:
+            self.d[command] = [False, CanonicalNameSet()]
         if plugin is None:
-            self.d[command] = None
+            self.d[command][0] = True
         else:
-            if command in self.d:
-                if self.d[command] is not None:
-                    self.d[command].add(plugin)
-            else:
-                self.d[command] = CanonicalNameSet([plugin])
+            self.d[command][1].add(plugin)
 
     def remove(self, command, plugin=None):
+        entry = self.d[command]
         if plugin is None:
-            del self.d[command]
+            if not entry[0]:
+                raise KeyError(command)
+            entry[0] = False
         else:
-            if self.d[command] is not None:
-                self.d[command].remove(plugin)
+            entry[1].remove(plugin)
+        if not entry[0] and not entry[1]:
+            del self.d[command]
 
 class BasePlugin(object):
     def __init__(self, *args, **kwargs):
